@@ -318,7 +318,10 @@ def run_impl(case):
         from rtctools.optimization.min_abs_goal_programming_mixin import MinAbsGoal
         from rtctools.optimization.timeseries import Timeseries
 
-        empties.append(bool(build_goal(s, Goal, MinAbsGoal, Timeseries, pr._times).is_empty))
+        try:
+            empties.append(bool(build_goal(s, Goal, MinAbsGoal, Timeseries, pr._times).is_empty))
+        except Exception as e:
+            return dict(kind="raise", err="Goal.is_empty raised %s: %s" % (type(e).__name__, str(e)[:200]), pr=pr, empties=empties)
     try:
         with quiet_fd():
             ret = pr.optimize()
@@ -767,7 +770,11 @@ def run_seq_impl(case):
         pr._ss.script, pr._ss.calls = list(run["script"]), 0
         pr._skip = set(run["skip"])
         pr._specs = list(run["goals"])
-        empties = [bool(build_goal(s, Goal, MinAbsGoal, Timeseries, pr._times).is_empty) for s in run["goals"]]
+        try:
+            empties = [bool(build_goal(s, Goal, MinAbsGoal, Timeseries, pr._times).is_empty) for s in run["goals"]]
+        except Exception as e:
+            out.append(dict(kind="raise", err="Goal.is_empty raised %s: %s" % (type(e).__name__, str(e)[:200]), empties=[]))
+            break
         try:
             with quiet_fd():
                 ret = pr.optimize()
